@@ -134,6 +134,7 @@ def expandScript (script : String) : List String :=
 
 def policyOf : String → Option Policy
   | "n" => some .alternate
+  | "f" => some .alternate        -- fragmented request bytes: a transport matter, same schedule
   | "p" => some .consumerFirst    -- slow producer: the handler is always waiting
   | "c" => some .producerFirst    -- slow consumer: the producer runs ahead until the buffer is full
   | _ => none
